@@ -84,18 +84,6 @@ Proof.
   apply IH. destruct (H (db, k)) as [Hs Hb]. apply fifo_reg_put; [exact H|apply qsorted_ins_at; exact Hs|].
   apply forall_ins_at; [cbn [mkw w_at]; exact Ha|exact Hb].
 Qed.
-Lemma in_reg_get_reregister db c left dl a : forall keys r rk w,
-  In w (reg_get (reregister r db c keys left dl a) rk) -> w = mkw c dl left a \/ In w (reg_get r rk).
-Proof.
-  induction keys as [|k keys IH]; intros r rk w H; [right; exact H|].
-  change (reregister r db c (k :: keys) left dl a) with
-    (reregister (reg_put r (db, k) (ins_at (mkw c dl left a) (reg_get r (db, k)))) db c keys left dl a) in H.
-  apply IH in H. destruct H as [H|H]; [left; exact H|].
-  destruct (rk_eqb rk (db, k)) eqn:E.
-  - apply rk_eqb_eq in E. subst rk. rewrite reg_get_put_same in H. apply in_ins_at in H. exact H.
-  - rewrite reg_get_put_other in H by exact E. right. exact H.
-Qed.
-
 (** ================= one relation for everything a request does ================= *)
 (** [FR c0 b b']: the order is kept; stamps only grow; a stamp found afterwards was there before
     (with the same connection) or is a fresh one of connection c0 *)
@@ -246,35 +234,60 @@ Qed.
 Definition src (b : blocking) (l : list wakeup) (c t : Z) : Prop :=
   (exists rk w, In w (reg_get (b_reg b) rk) /\ w_conn w = c /\ w_at w = t) \/
   (exists u, In u l /\ u_conn u = c /\ u_at u = t).
+(** the notifications a wake-up that found nothing makes once the client is registered again *)
+Lemma renotify_seq d dbi : forall keys b, b_seq (renotify d b dbi keys) = b_seq b.
+Proof.
+  induction keys as [|k keys IH]; intros b; [reflexivity|]. rewrite renotify_cons, IH.
+  destruct (llen_of d k); [reflexivity|apply notify_key_ready_seq].
+Qed.
+Lemma fifo_reg_renotify n d dbi : forall keys b, fifo_reg n (b_reg b) -> fifo_reg n (b_reg (renotify d b dbi keys)).
+Proof.
+  induction keys as [|k keys IH]; intros b H; [exact H|]. rewrite renotify_cons. apply IH.
+  destruct (llen_of d k); [exact H|apply fifo_reg_notify; exact H].
+Qed.
+Lemma renotified_l_src d dbi : forall keys b x, In x (renotified_l d b dbi keys) ->
+  exists rk w, In w (reg_get (b_reg b) rk) /\ w_conn w = u_conn x /\ w_at w = u_at x.
+Proof.
+  induction keys as [|k keys IH]; intros b x Hx; cbn [renotified_l] in Hx; [destruct Hx|].
+  destruct (llen_of d k); [apply IH; exact Hx|]. apply in_app_or in Hx. destruct Hx as [Hx|Hx].
+  - unfold renotified in Hx. destruct (reg_get (b_reg b) (dbi, k)) as [|w q] eqn:Eg; [destruct Hx|].
+    destruct Hx as [<-|[]]. exists (dbi, k), w. rewrite Eg. split; [left; reflexivity|split; reflexivity].
+  - destruct (IH _ _ Hx) as (rk & w & K1 & K2 & K3). exists rk, w. split; [eapply notify_key_ready_in; exact K1|split; assumption].
+Qed.
 Lemma wake_client_fifo now s b u :
   b_seq (snd (wake_client now s b u)) = b_seq b /\
   (fifo_reg (b_seq b) (b_reg b) -> u_at u < b_seq b -> fifo_reg (b_seq b) (b_reg (snd (wake_client now s b u)))) /\
   (forall rk w, In w (reg_get (b_reg (snd (wake_client now s b u))) rk) ->
                 In w (reg_get (b_reg b) rk) \/ (w_conn w = u_conn u /\ w_at w = u_at u)) /\
   exists ex, b_wake (snd (wake_client now s b u)) = b_wake b ++ ex /\
-             forall x, In x ex -> exists rk w, In w (reg_get (b_reg b) rk) /\ w_conn w = u_conn x /\ w_at w = u_at x.
+             forall x, In x ex -> (exists rk w, In w (reg_get (b_reg b) rk) /\ w_conn w = u_conn x /\ w_at w = u_at x)
+                                  \/ (u_conn x = u_conn u /\ u_at x = u_at u).
 Proof.
   unfold wake_client. destruct (on_key _ (u_key u) (e_pop (u_left u))) as [r d'].
   assert (Id : forall bx, b_seq bx = b_seq b -> b_reg bx = b_reg b -> b_wake bx = b_wake b ->
             b_seq bx = b_seq b /\ (fifo_reg (b_seq b) (b_reg b) -> u_at u < b_seq b -> fifo_reg (b_seq b) (b_reg bx)) /\
             (forall rk w, In w (reg_get (b_reg bx) rk) -> In w (reg_get (b_reg b) rk) \/ (w_conn w = u_conn u /\ w_at w = u_at u)) /\
             exists ex, b_wake bx = b_wake b ++ ex /\
-                       forall x, In x ex -> exists rk w, In w (reg_get (b_reg b) rk) /\ w_conn w = u_conn x /\ w_at w = u_at x).
+                       forall x, In x ex -> (exists rk w, In w (reg_get (b_reg b) rk) /\ w_conn w = u_conn x /\ w_at w = u_at x)
+                                            \/ (u_conn x = u_conn u /\ u_at x = u_at u)).
   { intros bx E1 E2 E3. split; [exact E1|]. rewrite E2. split; [auto|]. split; [intros rk w H; left; exact H|].
     exists []. rewrite app_nil_r. split; [exact E3|intros x []]. }
-  destruct (zlookup (u_conn u) (b_blk b)) as [st|];
-    [destruct (recheck (bl_left st) d' (bl_keys st)) as [[[k v]|] d'']|]; destruct r; cbn [snd];
+  destruct (zlookup (u_conn u) (b_blk b)) as [st|]; destruct r; cbn [snd];
     try (apply Id; reflexivity).
-  (* registered again, under its old stamp *)
-  all: try (split; [reflexivity|]; cbn [with_reg b_reg b_wake]; split;
-    [intros H1 H2; apply fifo_reg_reregister; assumption|]; split;
-    [intros rk w H; apply in_reg_get_reregister in H; destruct H as [->|H]; [right; split; reflexivity|left; exact H]
-    |exists []; rewrite app_nil_r; split; [reflexivity|intros x []]]).
+  (* registered again, under its old stamp; the heads of its keys that hold an element are notified *)
+  all: try (fold (again b u st); split; [rewrite renotify_seq; reflexivity|]; split;
+    [intros H1 H2; apply fifo_reg_renotify; cbn [again with_reg b_reg]; apply fifo_reg_reregister; assumption|]; split;
+    [intros rk w H; apply renotify_reg_sub in H; cbn [again with_reg b_reg] in H; apply in_reg_get_reregister in H;
+     destruct H as [->|H]; [right; split; reflexivity|left; exact H]
+    |exists (renotified_l d' (again b u st) (u_db u) (bl_keys st)); split; [apply (renotify_wake d' (u_db u) (bl_keys st) (again b u st))|];
+     intros x Hx; destruct (renotified_l_src _ _ _ _ _ Hx) as (rk & w & K1 & K2 & K3); cbn [again with_reg b_reg] in K1;
+     apply in_reg_get_reregister in K1; destruct K1 as [->|K1];
+     [right; cbn [mkw w_conn w_at] in K2, K3; split; congruence|left; exists rk, w; auto]]).
   (* the element goes back: the next waiter is notified *)
   split; [apply notify_key_ready_seq|]. split; [intros H1 _; apply fifo_reg_notify; exact H1|].
   split; [intros rk w H; left; eapply notify_key_ready_in; exact H|].
   exists (renotified b (u_db u) (u_key u)). split; [apply notify_key_ready_wake|].
-  intros x Hx. unfold renotified in Hx. destruct (reg_get (b_reg b) (u_db u, u_key u)) as [|w q] eqn:Eg; [destruct Hx|].
+  intros x Hx. left. unfold renotified in Hx. destruct (reg_get (b_reg b) (u_db u, u_key u)) as [|w q] eqn:Eg; [destruct Hx|].
   destruct Hx as [<-|[]]. exists (u_db u, u_key u), w. rewrite Eg. split; [left; reflexivity|split; reflexivity].
 Qed.
 Lemma wake_fold_fifo now : forall l s b,
@@ -305,10 +318,11 @@ Proof.
       destruct (IH s1 b1 H1' H2') as (I1 & I3 & I4 & ex2 & I5 & I6 & I7). rewrite W1 in *.
       split; [exact I1|]. split; [exact I3|]. split; [intros rk w H; apply Up1; apply I4 with rk; exact H|].
       exists (ex1 ++ ex2). split; [rewrite I5, W4, app_assoc; reflexivity|]. split.
-      * apply Forall_app. split; [|exact I6]. apply Forall_forall. intros x Hx. destruct (W5 x Hx) as (rk & w & K1 & _ & K3).
+      * apply Forall_app. split; [|exact I6]. apply Forall_forall. intros x Hx. destruct (W5 x Hx) as [(rk & w & K1 & _ & K3)|(_ & K3)]; [|lia].
         rewrite <- K3. destruct (H1 rk) as [_ Hb]. unfold qbelow in Hb. rewrite Forall_forall in Hb. apply Hb. exact K1.
       * intros x Hx. apply in_app_or in Hx. destruct Hx as [Hx|Hx]; [|apply Up1; apply I7; exact Hx].
-        destruct (W5 x Hx) as (rk & w & K1 & K2 & K3). left. exists rk, w. auto.
+        destruct (W5 x Hx) as [(rk & w & K1 & K2 & K3)|(K2 & K3)]; [left; exists rk, w; auto|].
+        right. exists u. split; [left; reflexivity|split; congruence].
 Qed.
 Lemma timeout_fold_seq : forall ex b, b_seq (fold_left timeout_conn ex b) = b_seq b.
 Proof.
